@@ -23,10 +23,25 @@ fn fmt_of(name: &str) -> (TextArchiveFormat, Endian) {
     }
 }
 
+thread_local! {
+    static REPARSE_N: std::cell::Cell<u64> = std::cell::Cell::new(0);
+}
+
+/// serialize -> parse; alternates between the two public parse paths (from_bytes, and BinArchive::from_bytes +
+/// TextArchive::from_archive), which must behave alike
 fn reparse(a: &TextArchive, fmt: &str) -> Result<TextArchive, String> {
     let (f, e) = fmt_of(fmt);
     let bytes = a.serialize().map_err(|e| format!("serialize: {}", e))?;
-    TextArchive::from_bytes(&bytes, f, e).map_err(|e| format!("from_bytes: {}", e))
+    let n = REPARSE_N.with(|c| {
+        c.set(c.get() + 1);
+        c.get()
+    });
+    if n % 2 == 0 {
+        TextArchive::from_bytes(&bytes, f, e).map_err(|e| format!("from_bytes: {}", e))
+    } else {
+        let bin = mila::BinArchive::from_bytes(&bytes, e).map_err(|e| format!("BinArchive::from_bytes: {}", e))?;
+        TextArchive::from_archive(&bin, f, e).map_err(|e| format!("from_archive: {}", e))
+    }
 }
 
 /// Build the archive whose projection is `pre` using public calls only.
@@ -262,6 +277,12 @@ fn format_replay(cases_path: &str, out_path: &str) {
             let bytes = a.serialize().map_err(|x| ("serialize".to_string(), x.to_string()))?;
             let b = TextArchive::from_bytes(&bytes, f, e).map_err(|x| ("parse".to_string(), x.to_string()))?;
             let got = text_value(&b, fmt);
+            // the other public parse path must agree
+            let bin = mila::BinArchive::from_bytes(&bytes, e).map_err(|x| ("parse".to_string(), x.to_string()))?;
+            let b3 = TextArchive::from_archive(&bin, f, e).map_err(|x| ("parse-from_archive".to_string(), x.to_string()))?;
+            if text_value(&b3, fmt) != got || b3.is_dirty() {
+                return Err(("roundtrip".to_string(), format!("from_archive differs from from_bytes: {} (dirty {})", text_value(&b3, fmt), b3.is_dirty())));
+            }
             events.put(&json!({"op": "text", "fmt": fmt, "endian": endian, "title": c["title"], "entries": c["entries"],
                                "bytes": bytes, "reparsed": got}));
             if c["exact"].as_bool().unwrap_or(true) && bytes != image {
